@@ -106,6 +106,11 @@ def _gen_ops(rng, depth, budget, allow_spawn, nrefs):
                   'body': _gen_ops(rng, depth + 1, budget, allow_spawn, nrefs)})
     elif r < 0.47:
       ops.append({'op': 'obs'})
+    elif r < 0.485:
+      # operations that fail half-way through gin's own scope handling: a call
+      # whose binding refers to a macro nobody defined, and a finalize() that
+      # a hook rejects (for that very macro)
+      ops.append({'op': rng.choice(['unset_macro', 'finalize_fails'])})
     elif r < 0.5:
       # the configuration is cleared (and parsed again at once) in the middle of
       # whatever scopes are open: the scopes are not part of the configuration
@@ -297,6 +302,11 @@ def _execute(case, policy, replay, hint):
     consumers.append(probes.register_probe({'name': 'c%d' % i}, cobj))
     lines.append('c%d.x = @%sf0%s' % (i, r['scope'] + '/' if r['scope'] else '',
                                       '()' if r['evaluate'] else ''))
+  mobj, _ = probes.compile_probe(
+      {'name': 'cmac', 'kind': 'fn',
+       'params': [{'n': 'x', 'k': 'def', 'd': None}]}, hook)
+  cmac = probes.register_probe({'name': 'cmac'}, mobj)
+  lines.append('cmac.x = [%NEVER_DEFINED_C09, 1]')
   config_text = '\n'.join(lines)
   gin.parse_config(config_text)
   bound = case['bound']
@@ -380,6 +390,18 @@ def _execute(case, policy, replay, hint):
       kind = op['op']
       if kind == 'obs':
         check_scope(st, cur, 'obs')
+      elif kind == 'unset_macro':
+        try:
+          cmac()
+        except Exception:  # pylint: disable=broad-except
+          counters['macro_faults'] = counters.get('macro_faults', 0) + 1
+        check_scope(st, cur, 'after-failed-macro-evaluation')
+      elif kind == 'finalize_fails':
+        try:
+          gin.finalize()
+        except Exception:  # pylint: disable=broad-except
+          counters['finalize_faults'] = counters.get('finalize_faults', 0) + 1
+        check_scope(st, cur, 'after-rejected-finalize')
       elif kind == 'clear_reparse':
         with s.atomic():
           # Only while this is the only live thread: what a call sees when the
